@@ -149,6 +149,10 @@ class ReadElementStatus(SCSICommand):
 
             decode_bits(data, cls._element_status_page_bits, _r)
             _d = data[8 : 8 + _bc]
+            if len(_d) and not _edl:
+                raise ValueError(
+                    "READ ELEMENT STATUS has element descriptor length 0"
+                )
             _ed = []
             while len(_d):
                 _rr = {}
